@@ -244,6 +244,11 @@ def run(ck):
                 nh += 1
                 lens = [bi for (bi, t) in f.calls(r"Vec::<T, A>::len$|Vec::<T>::len$") if ("field", tbl) in f.origins(t["args"][0], deep=True)]
                 ok_len = all(any(f.dominates(lb, pb) for lb in lens) for (pb, _) in pushes_)
+                if not ok_len:
+                    # the equivalent form: push first, then id = len() - 1
+                    subs = [st for bi in f.reachable() for st in f.stmts(bi) if st.get("rv", {}).get("k") == "bin" and st["rv"]["op"].startswith("Sub")
+                            and op_const(st["rv"]["b"]) is not None and const_int(op_const(st["rv"]["b"])) == 1 and has_call_origin(f.origins(st["rv"]["a"], deep=False), r"::len$")]
+                    ok_len = bool(subs) and all(any(f.dominates(pb, lb) for lb in lens) for (pb, _) in pushes_)
                 # slot writes that store a live value (not the retiring None)
                 wr = []
                 for (bi, t) in f.calls(r"ops::IndexMut::index_mut$|::get_mut$|Vec::<.*>::(insert|swap_remove|remove)$|iter::Iterator::position$"):
